@@ -262,6 +262,9 @@ pub struct Ctx {
     pub sym: bool,
     pub sym_seen: HashSet<(String, usize)>,
     pub sym_fns: Vec<SymFn>,
+    /// probe mode: run the named functions on the given inputs only (search for a failing input, symgen.py)
+    pub probes: Option<std::collections::HashMap<String, Vec<Vec<BigRat>>>>,
+    pub probe_done: HashSet<(String, usize)>,
 }
 
 /// one path of the symbolic execution of a function
@@ -295,7 +298,7 @@ pub fn rats(xs: &[Xq]) -> Vec<BigRat> {
 
 impl Ctx {
     pub fn new(seed: u64, scale: usize) -> Ctx {
-        Ctx { rng: Rng(seed), seed, scale, cases: vec![], pred_evals: 0, pred_fails: vec![], only: None, sym: false, sym_seen: HashSet::new(), sym_fns: vec![] }
+        Ctx { rng: Rng(seed), seed, scale, cases: vec![], pred_evals: 0, pred_fails: vec![], only: None, sym: false, sym_seen: HashSet::new(), sym_fns: vec![], probes: None, probe_done: HashSet::new() }
     }
 
     /// Run `body` on freshly allocated inputs and record the case.
@@ -313,13 +316,47 @@ impl Ctx {
             }
             return;
         }
+        if self.probes.is_some() {
+            if !self.probe_done.insert((f.to_string(), inp.len())) {
+                return;
+            }
+            let list: Vec<Vec<BigRat>> = self.probes.as_ref().unwrap().get(f).cloned().unwrap_or_default();
+            for pin in list.iter().filter(|p| p.len() == inp.len()) {
+                xq::reset();
+                setup();
+                let xs: Vec<Xq> = pin.iter().map(|r| Xq::new(r.clone())).collect();
+                let res = catch_unwind(AssertUnwindSafe(|| body(&xs).to_out()));
+                let out = match res {
+                    Ok(o) => o,
+                    Err(e) => {
+                        let m = panic_msg(e);
+                        if ["division by zero", "inexact sqrt", "unmodelled", "non-finite"].iter().any(|k| m.contains(k)) {
+                            continue; // the exact scalar cannot evaluate this input: not a usable probe
+                        }
+                        Out::Panic(m)
+                    }
+                };
+                let orc = xq::take_log();
+                self.cases.push(Case { f: f.to_string(), inp: pin.clone(), orc, out, tag: "probe".to_string() });
+            }
+            return;
+        }
         xq::reset();
         setup();
         let xs: Vec<Xq> = inp.iter().map(|r| Xq::new(r.clone())).collect();
         let res = catch_unwind(AssertUnwindSafe(|| body(&xs).to_out()));
         let out = match res {
             Ok(o) => o,
-            Err(e) => Out::Panic(panic_msg(e)),
+            Err(e) => {
+                // a panic raised by the exact scalar itself (division by zero, inexact root, question outside the oracle)
+                // is not a rejection by the code under test: it is recorded as such and never equals a model output
+                let m = panic_msg(e);
+                if ["division by zero", "inexact sqrt", "unmodelled", "non-finite"].iter().any(|k| m.contains(k)) {
+                    Out::Panic(format!("xq-arith: {}", m))
+                } else {
+                    Out::Panic(m)
+                }
+            }
         };
         let orc = xq::take_log();
         self.cases.push(Case { f: f.to_string(), inp: inp.to_vec(), orc, out, tag: tag.to_string() });
@@ -329,7 +366,7 @@ impl Ctx {
     /// `body` returns Ok(()) when the clause holds, Err(detail) when it is violated;
     /// a panic inside counts as a violation unless `expect_panic`.
     pub fn pred(&mut self, name: &str, inp: &[BigRat], setup: &dyn Fn(), body: &dyn Fn(&[Xq]) -> Result<(), String>) {
-        if self.sym {
+        if self.sym || self.probes.is_some() {
             return;
         }
         xq::reset();
@@ -506,6 +543,14 @@ pub fn m4(x: &[Xq]) -> Matrix4<Xq> {
         x[0], x[1], x[2], x[3], x[4], x[5], x[6], x[7], x[8], x[9], x[10], x[11], x[12], x[13], x[14], x[15],
     )
 }
+/// Basis2 / Basis3 from the flattened matrix: their field is private and there is no public constructor from a
+/// matrix, but they are single-field wrappers of Matrix2 / Matrix3 (same size, checked by transmute)
+pub fn b2(x: &[Xq]) -> Basis2<Xq> {
+    unsafe { std::mem::transmute::<Matrix2<Xq>, Basis2<Xq>>(m2(x)) }
+}
+pub fn b3(x: &[Xq]) -> Basis3<Xq> {
+    unsafe { std::mem::transmute::<Matrix3<Xq>, Basis3<Xq>>(m3(x)) }
+}
 /// quaternion from [s, x, y, z]
 pub fn qn(x: &[Xq]) -> Quaternion<Xq> {
     Quaternion::new(x[0], x[1], x[2], x[3])
@@ -558,11 +603,26 @@ fn jnode(n: &Node) -> String {
     match n {
         Node::In(i) => format!("[\"in\",{}]", i),
         Node::Const(r) => format!("[\"const\",{}]", jq(r)),
+        Node::Cast(r) => format!("[\"cast\",{}]", jq(r)),
         Node::Eps => "[\"eps\"]".to_string(),
         Node::MaxRel => "[\"maxrel\"]".to_string(),
         Node::Un(op, a) => format!("[\"{}\",{}]", op, a),
         Node::Bin(op, a, b) => format!("[\"{}\",{},{}]", op, a, b),
     }
+}
+
+/// probes file: one probe per line, `function<TAB>q1 q2 ... qn` (rationals as n/d)
+pub fn read_probes(path: &str) -> std::collections::HashMap<String, Vec<Vec<BigRat>>> {
+    let mut m: std::collections::HashMap<String, Vec<Vec<BigRat>>> = Default::default();
+    for line in std::fs::read_to_string(path).expect("probes file").lines() {
+        let mut it = line.splitn(2, '\t');
+        let f = it.next().unwrap_or("").to_string();
+        let qs: Vec<BigRat> = it.next().unwrap_or("").split_whitespace().map(BigRat::parse).collect();
+        if !f.is_empty() {
+            m.entry(f).or_default().push(qs);
+        }
+    }
+    m
 }
 
 pub fn write_sym(path: &str, fns: &[SymFn]) {
